@@ -177,6 +177,25 @@ def sk_eor_mp(ctx, s):
     return K.body([], [K.attr(ctx, 'mpu', 0x80, 15, K.be(afi, 2) + [safi])], [])
 
 
+def sk_seq_mp(ctx, s):
+    """sequence units: fixed ORIGIN and AS_PATH, free MED, one IPv6 prefix of 6 octets and a free 16-octet next hop in MP_REACH_NLRI"""
+    return K.body([], [K.attr(ctx, 'origin', 0x40, 1, [0], ext=False), K.a_aspath(ctx, segs=(), asn4=s != 'asn2', ext=False), K.a_med(ctx, ext=False),
+                       K.a_mp_reach(ctx, 2, 1, 16, (6,), s == 'addpath', ext=False)], [])
+
+
+def sk_seq_v4(ctx, s):
+    return K.body([], [K.attr(ctx, 'origin', 0x40, 1, [0], ext=False), K.a_aspath(ctx, segs=(), asn4=s != 'asn2', ext=False), K.a_nexthop(ctx, ext=False),
+                       K.a_med(ctx, ext=False)], [K.prefix(ctx, 'n0', 3, s == 'addpath')])
+
+
+def sk_seq_mpun(ctx, s):
+    return K.body([], [K.a_mp_unreach(ctx, 2, 1, (6,), s == 'addpath', ext=False)], [])
+
+
+def sk_seq_wd(ctx, s):
+    return K.body([K.prefix(ctx, 'w0', 3, s == 'addpath')], [], [])
+
+
 SKELETONS = {
     'basic': (sk_basic, ('asn4', 'asn2', 'addpath')), 'withdraw': (sk_withdraw, ('asn4', 'addpath')), 'mixed': (sk_mixed, ('asn4', 'addpath')),
     'attrs1': (sk_attrs1, ('asn4', 'asn2')), 'attrs2': (sk_attrs2, ('asn4',)), 'unknown': (sk_unknown, ('asn4',)),
@@ -184,6 +203,7 @@ SKELETONS = {
     'mpreach': (sk_mpreach, ('asn4', 'addpath')), 'mpreach32': (sk_mpreach32, ('asn4',)), 'mpunreach': (sk_mpunreach, ('asn4', 'addpath')),
     'mpboth': (sk_mpboth, ('asn4', 'addpath')), 'eor4': (sk_eor4, ('asn4',)), 'eor-mp': (sk_eor_mp, ('asn4',)),
 }
+SEQ_SKELETONS = {'mp': sk_seq_mp, 'v4': sk_seq_v4, 'mpun': sk_seq_mpun, 'wd': sk_seq_wd}
 
 
 # ---- comparison ---------------------------------------------------------------------------
@@ -354,6 +374,86 @@ def rib_in(ctx, want, msg, neg, name):
     ctx.cover('rib-in')
 
 
+class Pfx:
+    """ctx wrapper giving every symbolic name a prefix, so the messages of a sequence get independent variables"""
+
+    def __init__(self, ctx, p):
+        self._c = ctx
+        self._p = p
+        self.sym = ctx.sym
+
+    def bytes(self, name, n):
+        return self._c.bytes(self._p + name, n)
+
+    def byte(self, name):
+        return self._c.byte(self._p + name)
+
+    def int(self, name, lo=None, hi=None):
+        return self._c.int(self._p + name, lo, hi)
+
+    def bool(self, name):
+        return self._c.bool(self._p + name)
+
+
+def h_sequence(ctx, skels, sess):
+    """SEVERAL UPDATEs of one session into ONE Adj-RIB-In through the real UpdateHandler (what `adj-rib-in` keeps and
+    `show adj-rib in` reports).  Every message has its own symbolic values: whether the second names the same prefix, the
+    same attributes, the same next hop as the first is the solver's choice.  After the last one the Adj-RIB-In equals what
+    the reference decoder says the peer announced and did not withdraw since - the LAST announcement of a prefix counts,
+    with its own next hop."""
+    neg = S.session('in', **SESSIONS[sess])
+    d = O.Dec(bool, ctx.concretize)
+    from exabgp.rib.incoming import IncomingRIB
+    rib = type('R', (), {})()
+    rib.incoming = IncomingRIB(True, set(neg.families), True)
+    holder = type('N', (), {})()
+    holder.rib = rib
+    holder.session = neg.neighbor.session
+    c = Ctx2(holder, neg)
+    table = []
+    name = 'sequence:' + '>'.join(skels)
+    for i, skel in enumerate(skels):
+        items = SEQ_SKELETONS[skel](Pfx(ctx, 'm%d.' % i), sess)
+        data = K.mk(ctx, items)
+        try:
+            want = O.decode_update(data, bool(neg.asn4), addpath_of(neg), d)
+        except O.Malformed:
+            ctx.assume(False, 'the oracle classifies every message of the sequence as well-formed')
+        try:
+            msg = Message.unpack(2, data, neg)
+            if isinstance(msg, Update):
+                msg.data
+        except Notify as n:
+            ctx.check('well-formed-accepted', False, sig='C02:%s:well-formed-refused:%d/%d' % (name, n.code, n.subcode), info={'message': i, 'notify': str(n)})
+            return ('refused', i)
+        if not isinstance(msg, Update):
+            continue
+        coro = UpdateHandler().handle_async(c, msg)
+        try:
+            coro.send(None)
+        except StopIteration:
+            pass
+        for a, s_, pid, m, p, nh in want['announce']:
+            key = K.want_nlri(a, s_, pid, m, p, ctx)
+            if any(bool(sx_eq(k, key)) for k, _ in table):
+                ctx.cover('prefix-announced-again')
+            table = [(k, v) for k, v in table if not bool(sx_eq(k, key))]
+            table.append((key, nh_of(nh)))
+        for a, s_, pid, m, p in want['withdraw']:
+            key = K.want_nlri(a, s_, pid, m, p, ctx)
+            if any(bool(sx_eq(k, key)) for k, _ in table):
+                ctx.cover('held-prefix-withdrawn')
+            table = [(k, v) for k, v in table if not bool(sx_eq(k, key))]
+    got = [(K.got_nlri(r.nlri), K.nexthop_bytes(r.nexthop)) for r in rib.incoming.cached_routes()]
+
+    def inside(x, lst):
+        return any(bool(sx_eq(x, y)) for y in lst)
+    ok = len(got) == len(table) and all(inside(g, table) for g in got) and all(inside(t, got) for t in table)
+    ctx.check('adj-rib-in-after-the-sequence', ok, sig='C02:%s:adj-rib-in-differs' % name, info={'got': got, 'want': table})
+    ctx.cover('rib-in')
+    return ('ok', len(table))
+
+
 def json_witness(want, msg, neg, values_d):
     """concrete only: the JSON event agrees with the oracle"""
     import socket
@@ -517,6 +617,13 @@ def units(tier):
                 cov.append('unknown-transitive-kept')
             us.append(Unit('shaped/%s/%s' % (skel, s), lambda ctx, k=skel, s=s: h_shaped(ctx, k, s), must_cover=cov, hash_const=True,
                            reset=reset_state, weight=10, max_seconds=400))
+    seqs = [(('mp', 'mp'), 'asn4'), (('v4', 'v4'), 'asn4'), (('mp', 'mpun'), 'asn4'), (('v4', 'wd'), 'asn4')]
+    if tier == 'thorough':
+        seqs += [(('mp', 'mp'), 'addpath'), (('v4', 'v4'), 'addpath'), (('mp', 'mpun', 'mp'), 'asn4'), (('mp', 'mp', 'mp'), 'asn4'), (('v4', 'wd', 'v4'), 'asn4')]
+    for skels, sess in seqs:
+        cov = ['rib-in'] + (['prefix-announced-again'] if skels[0] == skels[1] else ['held-prefix-withdrawn'])
+        us.append(Unit('sequence/%s/%s' % ('-'.join(skels), sess), lambda ctx, k=skels, s=sess: h_sequence(ctx, k, s), must_cover=cov, hash_const=True,
+                       reset=reset_state, weight=30, max_seconds=600))
     for L in ((4, 5, 6, 7) if tier == 'thorough' else (4, 5, 6)):
         us.append(Unit('unshaped/L%d' % L, lambda ctx, L=L: h_unshaped(ctx, L, 'asn4'), must_cover=('well-formed',), hash_const=True,
                        reset=reset_state, weight=40 * L, max_seconds=1500 if tier == 'thorough' else 400, max_paths=200000))
